@@ -349,6 +349,15 @@ Definition alt_first_uneven (s : sdecl) : bool :=
   end.
 Definition K_ALT_FIRST : N := 19.
 
+(* the full list a fixed-offset string would have had in libyara: every offset the specification
+   predicts, with libyara's length where libyara kept the match and the longest member length
+   elsewhere (the length only bounds where a later saved start may lie, see start_position_shape) *)
+Definition full_list (s : sdecl) (m : bytes) (y : list (N * N)) : list (N * N) :=
+  map (fun o => (o, match find (fun yo => fst yo =? o) y with
+                    | Some yo => snd yo
+                    | None => match list_max (spec_lens s m o) with Some l => l | None => 0 end
+                    end)) (spec_offsets_of s m).
+
 (* strings of one rule on one input *)
 Fixpoint strings_check (cond : option expr) (m : bytes) (ss : list sdecl) (nl : list N) (v : nat)
          (ys bs : list (list (N * N))) : sres :=
@@ -369,7 +378,12 @@ Fixpoint strings_check (cond : option expr) (m : bytes) (ss : list sdecl) (nl : 
         let relaxed := forallb (fun yo => existsb (fun bo => (fst yo =? fst bo)
                                   && (negb (uniq_len s m (fst yo)) || (snd yo =? snd bo))) b) y
                        && list_eqb N.eqb (map fst b) full in
-        mk_sres sp (exact || relaxed) (negb exact && relaxed) false false 0
+        (* both recorded classes at once: boreal's list is judged against the full list, where it may
+           miss starts in the start-position shape (and nothing else) *)
+        let shape := negb exact && negb relaxed && sp
+                     && start_position_shape s m (nth v nl 0) (full_list s m y) b in
+        mk_sres sp (exact || relaxed || shape) (negb exact && relaxed) false false
+                (if shape then K_START_POS else 0)
       else
         let exact := string_agree s m y b in
         let shape := negb exact && start_position_shape s m (nth v nl 0) y b in
